@@ -9,6 +9,8 @@ import ParryModel.C05.Theorems8
 import ParryModel.C05.Theorems9
 import ParryModel.C05.Theorems10
 import ParryModel.C05.Theorems11
+import ParryModel.C05.Theorems12
+import ParryModel.C05.Theorems13
 /-!
 # C05 property theorems (umbrella file)
 
@@ -26,5 +28,7 @@ import ParryModel.C05.Theorems11
 * `Theorems9.lean` — fu4: height-field cell triangles are non-degenerate; tetrahedron vertex c / d branches.
 * `Theorems10.lean` — fu4: the edge pseudo-normals of `compute_pseudo_normals` are the sums of the normals of the faces sharing the edge.
 * `Theorems11.lean` — fu4: every triangle of `HeightField::triangles()` is non-degenerate; nearest-point theorem for an actual field.
+* `Theorems12.lean` — fu5: tetrahedron face regions (`check_face` sound / optimal / never for members / symmetric in the determinants).
+* `Theorems13.lean` — fu5: the whole tetrahedron cascade: every vertex / edge / face answer is the nearest member; no assert; `OnSolid` only for `solid = true`.
 `./mkaudit C05` collects the public `theorem`s of every `Theorems*.lean`.
 -/
